@@ -159,6 +159,11 @@ func New(db dbm.DB, opts Options) *Chain {
 	c.TKey = sdk.NewTransientStoreKey(paramstypes.TStoreKey)
 
 	c.CMS = store.NewCommitMultiStore(db)
+	// IAVL's fast-node index iterates with database iterators; a MemDB iterator holds the database's read lock
+	// until it is closed, and a handler that panics (out of gas) in the middle of an iteration never closes it:
+	// the next commit would wait forever. Without the index, iteration walks tree nodes with plain reads. The
+	// index does not take part in the app hash.
+	c.CMS.SetIAVLDisableFastNode(true)
 	for _, k := range []*storetypes.KVStoreKey{c.AuthKey, c.BankKey, c.ParKey, c.EcoKey, c.DataKey} {
 		c.CMS.MountStoreWithDB(k, storetypes.StoreTypeIAVL, nil)
 	}
@@ -239,13 +244,14 @@ func (c *Chain) newCtx(ms storetypes.MultiStore) sdk.Context {
 
 // Genesis is what InitGenesis consumes.
 type Genesis struct {
-	Time     time.Time
-	Eco      json.RawMessage // nil = module default
-	Data     json.RawMessage // nil = module default
-	Auth     json.RawMessage // nil = default
-	Bank     json.RawMessage // nil = default + Balances
-	Balances []Balance       // minted through the mint module account
-	Locked   []Balance       // accounts turned into permanently locked vesting accounts (part of their balance unspendable)
+	Time          time.Time
+	Eco           json.RawMessage // nil = module default
+	Data          json.RawMessage // nil = module default
+	Auth          json.RawMessage // nil = default
+	Bank          json.RawMessage // nil = default + Balances
+	Balances      []Balance       // minted through the mint module account
+	InitialHeight int64           // height of the genesis commit (a chain restarted from an export starts in the millions); 0 = 1
+	Locked        []Balance       // accounts turned into permanently locked vesting accounts (part of their balance unspendable)
 }
 
 type Balance struct {
@@ -311,6 +317,11 @@ func (c *Chain) InitGenesis(g Genesis) (err error) {
 		c.Data.InitGenesis(ctx, c.Cdc, dat)
 	}
 	branch.Write()
+	if g.InitialHeight > 1 {
+		if err := c.CMS.SetInitialVersion(g.InitialHeight); err != nil {
+			return err
+		}
+	}
 	id := c.CMS.Commit()
 	c.Height = id.Version
 	c.LastHash = id.Hash
@@ -385,7 +396,10 @@ type Result struct {
 
 // Deliver runs ValidateBasic and the routed handler on a per-message cache
 // branch, written only on success.
-func (c *Chain) Deliver(msg sdk.Msg) (res Result) {
+func (c *Chain) Deliver(msg sdk.Msg) (res Result) { return c.DeliverGas(msg, c.Opts.GasLimit) }
+
+// DeliverGas is Deliver with an explicit gas limit for this message.
+func (c *Chain) DeliverGas(msg sdk.Msg, gasLimit uint64) (res Result) {
 	if !c.inBlock {
 		panic("Deliver outside a block")
 	}
@@ -397,7 +411,7 @@ func (c *Chain) Deliver(msg sdk.Msg) (res Result) {
 		return Result{Err: fmt.Errorf("no route for %s", sdk.MsgTypeURL(msg)), Stage: "route"}
 	}
 	branch := c.block.CacheMultiStore()
-	gm := sdk.NewGasMeter(c.Opts.GasLimit)
+	gm := sdk.NewGasMeter(gasLimit)
 	ctx := sdk.NewContext(branch, c.header(), false, log.NewNopLogger()).
 		WithGasMeter(gm).WithEventManager(sdk.NewEventManager())
 	var sres *sdk.Result
@@ -544,21 +558,35 @@ type InvariantResult struct {
 	Module, Route, Msg string
 	Broken             bool
 	Panic              interface{}
+	OutOfGas           bool
 }
 
 // RunInvariants runs every invariant route registered by the modules.
-func (c *Chain) RunInvariants() []InvariantResult {
+func (c *Chain) RunInvariants() []InvariantResult { return c.RunInvariantsGas(0) }
+
+// RunInvariantsGas runs the registered invariants under a finite gas meter (0 = infinite), as x/crisis does
+// inside a MsgVerifyInvariant transaction. Running out of gas is a panic of the transaction, not a verdict: such a
+// result has OutOfGas set and Broken false.
+func (c *Chain) RunInvariantsGas(limit uint64) []InvariantResult {
 	var out []InvariantResult
 	for _, ni := range c.invariants {
 		r := InvariantResult{Module: ni.Module, Route: ni.Route}
 		func() {
 			defer func() {
 				if p := recover(); p != nil {
+					if _, ok := p.(storetypes.ErrorOutOfGas); ok {
+						r.OutOfGas = true
+						return
+					}
 					r.Panic = p
 					r.Broken = true
 				}
 			}()
-			r.Msg, r.Broken = ni.Inv(c.ReadCtx())
+			ctx := c.ReadCtx()
+			if limit > 0 {
+				ctx = ctx.WithGasMeter(sdk.NewGasMeter(limit))
+			}
+			r.Msg, r.Broken = ni.Inv(ctx)
 		}()
 		out = append(out, r)
 	}
